@@ -243,12 +243,40 @@ func cmdName(line string) string {
 	return n
 }
 
+// respellCommand rewrites the command name (and the word after "UID") in lower or mixed case.
+func respellCommand(rng *rand.Rand, line string) string {
+	f := strings.SplitN(line, " ", 3)
+	mix := func(w string) string {
+		b := []byte(w)
+		all := rng.Intn(2) == 0
+		for i := range b {
+			if b[i] >= 'A' && b[i] <= 'Z' && (all || rng.Intn(2) == 0) {
+				b[i] += 32
+			}
+		}
+		return string(b)
+	}
+	if len(f) > 0 {
+		up := strings.ToUpper(f[0])
+		f[0] = mix(f[0])
+		if up == "UID" && len(f) > 1 {
+			f[1] = mix(f[1])
+		}
+	}
+	return strings.Join(f, " ")
+}
+
 // exchange sends one command line and returns the untagged lines and the tagged one.
 func (sm *Sim) exchange(s *Sess, line string) ([]kit.RespLine, kit.RespLine, bool) {
 	s.tagN++
 	tag := fmt.Sprintf("s%dt%d", s.ID, s.tagN)
-	sm.logf("C%d: %s %s", s.ID, tag, line)
-	s.raw.SendStr(tag + " " + line + "\r\n")
+	// command names are case-insensitive: every 4th command is spelled in lower or mixed case
+	wire := line
+	if sm.rng.Intn(4) == 0 {
+		wire = respellCommand(sm.rng, line)
+	}
+	sm.logf("C%d: %s %s", s.ID, tag, wire)
+	s.raw.SendStr(tag + " " + wire + "\r\n")
 	return sm.collect(s, tag, cmdName(line))
 }
 
